@@ -386,6 +386,15 @@ func vRunChild(t *testing.T, test string, spec string, timeout time.Duration) (o
 	return err == nil, string(b)
 }
 
+func vRunChildEnv(t *testing.T, test string, spec string, timeout time.Duration, env ...string) (ok bool, out string) {
+	ctx, cancel := context.WithTimeout(context.Background(), timeout)
+	defer cancel()
+	cmd := exec.CommandContext(ctx, os.Args[0], "-test.run=^"+test+"$", "-test.count=1", "-test.timeout="+timeout.String())
+	cmd.Env = append(append(os.Environ(), "VERIF_CHILD="+spec), env...)
+	b, err := cmd.CombinedOutput()
+	return err == nil, string(b)
+}
+
 func vChildSpec() string { return os.Getenv("VERIF_CHILD") }
 
 func vPanicLine(out string) string {
